@@ -14,31 +14,31 @@ CHECKS = {
          "All programs over a small alphabet of scope operations to a bound, random larger ones, and consistent renamings; reports how many cases distinguish dynamic scoping / by-value capture / shared frames from the truth.", "4/C04"),
  "C05": ("model-based history generation (alias / copy / mutate / observe) against a reference heap model",
          "Exhaustive short histories over a few variables and containers plus random longer ones; every observation (print, ===, ==) must match the heap model; reports per wrong-semantics variant how many cases would expose it.", "4/C05"),
- "C06": ("exhaustive boundary grid + random 64-bit pairs against exact i128 arithmetic",
+ "C06": ("exhaustive boundary grid + sweep of all small multipliers against partners at the limit + random pairs (64-bit, 32-bit magnitudes, random widths) against exact i128 arithmetic",
          "Every operator x boundary pair x plain/op-assign form, literals, ranges; the exact result or a diagnostic naming operands and operator. The grid is exhaustive over its values.", "4/C06"),
  "C07": ("exhaustive enumeration of control-flow nestings with jumps at every position + differential vs. reference interpreter",
          "All nestings of block / if / while / for / call to a depth bound with break / continue / return placed everywhere and traced; loop bodies that mutate the iterated container.", "4/C07"),
- "C08": ("round-trip print -> real parser -> compare trees; exhaustive operator sequences vs. tier table",
+ "C08": ("round-trip print -> real parser -> compare trees; exhaustive operator sequences vs. tier table; evaluated flat chains of 3..64 operands against the left fold",
          "All operator sequences up to length 3 (4 thorough) over the 16 binary operators, random deep trees with minimal / full / redundant parentheses; the parsed tree must equal the written tree.", "4/C08"),
  "C09": ("metamorphic: one program under random layouts must behave identically; directional newline-vs-; matrix",
          "Five layouts per program (terminators, continuation breaks, comments, odd whitespace, CR LF, digit separators, \\xHH) must give the same stdout, status, message and mapped position; a line break after each token kind continues iff documented.", "4/C09"),
- "C10": ("exhaustive pairs/triples over a pool of nested values built along different histories, structural oracle in the harness",
+ "C10": ("exhaustive pairs/triples over a pool of nested values built along different histories, structural oracle in the harness; chains 100..400 deep and self-containing operands with computed answers",
          "All ordered pairs of the pool x {== != === !==}, transitivity triples, random deep pairs; values dumped before/after to show nothing mutated.", "4/C10"),
- "C11": ("exhaustive small sequences x all indices / bounds against the sequence laws",
-         "Every list/string up to the bound x every index and bound pair incl. omitted, reads and assignments, byte-wise strings; the laws are written out in the harness.", "4/C11"),
+ "C11": ("exhaustive small sequences x all indices / bounds against the sequence laws + random read/write histories on lists of 0..300 followed on a Vec model (proptest)",
+         "Every list/string up to the bound x every index and bound pair incl. omitted, reads and assignments, byte-wise strings; random histories of reads, element and range writes (from literals, range expressions, strings, own slices; ranges wider than 64) and appends on lists of up to 300 elements; the laws are written out in the harness.", "4/C11"),
  "C12": ("model-based histories over object keys against a map model + .k/[\"k\"] metamorphic rewriting",
          "Exhaustive short histories of insert / overwrite / op-assign / read / spread / iterate over a key alphabet, all insertion orders.", "4/C12"),
- "C13": ("exhaustive patterns x sources against binding semantics + round-trip laws evaluated in Seed",
-         "Patterns of depth <= 2 and width <= 4 against sources of size 0..5 in declaration / assignment / for / parameter position; spread/collect inverse laws.", "4/C13"),
+ "C13": ("exhaustive patterns x sources against binding semantics + round-trip laws evaluated in Seed + random pattern trees (proptest) + spread-beside-side-effect metamorphic pairs",
+         "Patterns of depth <= 2 and width <= 4 against sources of size 0..5 in declaration / assignment / for / parameter position; random pattern trees up to 40 wide with repeated keys against fitting and one-off sources; spread/collect inverse laws; f(xs.., g()) against its written-out form when g mutates xs.", "4/C13"),
  "C14": ("model-based call/this histories against a provenance model",
          "Short histories of defining, attaching, reading, moving and calling functions; arities x rest x spread; argument evaluation traces.", "4/C14"),
  "C15": ("generated string literals: decode oracle + interpolation == concatenation metamorphic relation",
          "Literal text over ASCII / escapes / multi-byte characters, 0..3 slots at every position, slot expressions with braces and nested literals; lexical errors at the offending character.", "4/C15"),
- "C16": ("exhaustive finite matrix: operator x kind x kind and context x kind against the table in the property",
+ "C16": ("exhaustive finite matrix: operator x kind x kind and context x kind against the table in the property, out-of-domain cells again over look-alike values",
          "Complete: every cell of the matrix is executed; in-domain cells check the value, others the diagnostic naming operator and both types.", "4/C16"),
  "C17": ("failing programs by construction (fault x slot x call wrapper) + random failing programs; shape predicates on stderr",
          "Every error class raised at every syntactic slot and at call depth 0..5 through named / anonymous / method / callback / builtin calls and direct recursion; stdout up to the failure, exit 103, one located line, innermost function, one trace line per active call.", "4/C17"),
- "C18": ("failing programs with known offending token under random layouts; in-process comparison of every token / tree position with the printer's record",
+ "C18": ("failing programs with known offending token under random layouts (also inside interpolation slots, composed from the reported chain); in-process comparison of every token / tree position with the printer's record",
          "Exact line:col for the documented error kinds and trace lines under tabs, CR, comments, multi-byte and multi-line text; every lexer token start and every syntax-tree position of random programs.", "4/C18"),
  "C19": ("repeated runs under varied environment must be byte-identical; print vs. independent renderer over construction histories",
          "Programs with many-key objects and multi-error situations run several times under different cwd / env / locale / path spelling / stdin / stdout; nested values built along different histories print canonically.", "4/C19"),
